@@ -600,13 +600,17 @@ def gen_obligations(model, contract, events, results, fs):
                             break
                 base_ids = {f.get_id() for f in base_pc} | cond_ids
                 pairs = [(f, tg) for f, tg in pairs if f.get_id() not in base_ids]
-                facts = [f for f, tg in pairs if tg in ("assume", "oblige")]
-                conds = [f for f, tg in pairs if tg not in ("assume", "oblige")]
+                # 'assume' = facts about callee results (their contracts); 'oblige' = formulas PROVED on this path under its
+                # path condition (e.g. the soundness of the yield): those are consequences of the conditions, not facts -
+                # assuming them under the existential over the loop element would make the disjunct vacuously true for an
+                # element that violates them, so they are left out
+                facts = [f for f, tg in pairs if tg == "assume"]
+                ev_conds = [f for f, tg in pairs if tg not in ("assume", "oblige")]
                 sub_names = {str(x) for x, _ in subs}
                 xs = [x for (x, itd) in ev.loopvars if str(x) not in sub_names]
                 xnames = {str(x) for x in xs}
-                rs = [v for v in locals_of(facts + conds, {str(t)}) if str(v) not in xnames]
-                cbody = z3.And(*conds) if len(conds) > 1 else (conds[0] if conds else z3.BoolVal(True))
+                rs = [v for v in locals_of(facts + ev_conds, {str(t)}) if str(v) not in xnames]
+                cbody = z3.And(*ev_conds) if len(ev_conds) > 1 else (ev_conds[0] if ev_conds else z3.BoolVal(True))
                 if not xs:
                     # hoist the universally quantified callee results: fresh names per event
                     # a callee result created on a common execution prefix is the same value in every event
